@@ -23,7 +23,7 @@ func init() {
 			"R08-eof — 'never hangs': every loop in the scanner that consumes input leaves the loop when the current character is EOF (decided by partial evaluation of the loop's exit conditions with every character-producing call returning -1; pure predicates isIdent/isDecimal/isDigit are evaluated on -1). " +
 			"NOT decided: run-time (index / nil / assertion) panics inside compile.go, termination of the generated LALR driver, that all Lua 5.1 texts are accepted.",
 		Trusted: []string{"the goyacc-generated driver terminates on every token sequence"},
-		Rules:   []func(*Ctx){ruleAstKinds, ruleLoadPanics, ruleEOF},
+		Rules:   []func(*Ctx){ruleAstKinds, ruleLoadPanics, ruleEOF, ruleTerminate},
 	})
 }
 
@@ -718,6 +718,43 @@ func ruleEOF(c *Ctx) {
 				continue
 			}
 			c.bad(R, key, p.ipos(h.Instrs[0]), fmt.Sprintf("at end of input (every character read returns EOF = -1) this scanner loop can come back to its header: an unterminated construct at EOF makes Load spin forever (undetermined tests at %s)", strings.Join(witness, ", ")))
+		}
+	}
+}
+
+// ruleTerminate: 'loading never hangs' — every loop of the bytecode compiler has a recognised
+// termination argument (see loops.go); the loops whose argument is not a counter, a link chain or an
+// iterator are listed here with the reason they end.
+var otherLoops = map[string]string{}
+
+func ruleTerminate(c *Ctx) {
+	const R = "R08-terminate"
+	c.floor(R, 20)
+	p := c.P
+	for _, fn := range p.srcFuncs {
+		if fn.Pkg == nil || fn.Pkg.Pkg.Path() != luaPath {
+			continue
+		}
+		if !strings.HasSuffix(p.pos(fn.Pos()), "") || !strings.HasPrefix(p.pos(fn.Pos()), "compile.go:") {
+			continue
+		}
+		g := p.G(fn)
+		for k, li := range g.loops() {
+			key := loopKey(fn, k)
+			c.Sites++
+			pos := p.pos(li.Header.Instrs[0].Pos())
+			if li.ExitPos.IsValid() {
+				pos = p.pos(li.ExitPos)
+			}
+			if li.Class != "other" {
+				c.ok(R, key, pos, li.Class+": "+li.Why)
+				continue
+			}
+			if why, ok := otherLoops[key]; ok {
+				c.okT(R, key, pos, "listed: "+why)
+				continue
+			}
+			c.bad(R, key, pos, fmt.Sprintf("a loop of %s has no exit that every iteration evaluates against a counter, a link chain or an iterator: a source text that makes its condition stay true hangs the load (the jump-threading loop of patchCode is bounded by a hop count for this reason)", fname(fn)))
 		}
 	}
 }
